@@ -113,6 +113,27 @@ def scaling_probe(ctx, classes, n_schema, gen):
             out = go(v, True)
         return out if done[0] else None
 
+    def linear_reference(factor):
+        """time(factor * n) / (factor * time(n)) of a linear pure-Python workload that allocates like a decoder (a tuple of small
+        objects per element): 1.0 on a quiet machine, more when large allocations are being slowed down from outside"""
+        import gc
+
+        def work(n):
+            t = 1e9
+            for _ in range(3):
+                gc.collect(); gc.disable()
+                try:
+                    t0 = time.perf_counter()
+                    acc = tuple((i, str(i), bytes(8)) for i in range(n))
+                    t = min(t, time.perf_counter() - t0)
+                    del acc
+                finally:
+                    gc.enable()
+            return t
+        n = 40000
+        a, b = work(n), work(n * factor)
+        return b / (factor * max(a, 1e-6))
+
     def best(cls, data, reps=3):
         import gc
         t = 1e9
@@ -181,9 +202,19 @@ def scaling_probe(ctx, classes, n_schema, gen):
         for shape, f in shapes:
             ds, dl = f(es[1]), f(el[1])
             ts, tl = best(cls, ds), best(cls, dl)
+            env = 1.0
             verdict = "super-linear" if (tl > 0.4 and tl > 32 * max(ts, 1e-4)) else "linear"
+            if verdict == "super-linear":
+                # a loaded machine (other processes competing for cores, caches and memory) makes LARGE allocations slower per
+                # unit than small ones: re-measure several times, and scale the threshold by what a plainly linear workload of
+                # the same allocation pattern shows at the same two sizes at the same moment
+                for _ in range(3):
+                    time.sleep(1.0)
+                    ts, tl = min(ts, best(cls, ds, reps=3)), min(tl, best(cls, dl, reps=3))
+                env = max(1.0, linear_reference(len(dl) // max(len(ds), 1)))
+                verdict = "super-linear" if (tl > 0.4 and tl > 32 * env * max(ts, 1e-4)) else "linear"
             out.append({"class": _codec.cls_name(classes, idx), "shape": shape, "bytes": [len(ds), len(dl)],
-                        "seconds": [round(ts, 5), round(tl, 5)], "verdict": verdict})
+                        "seconds": [round(ts, 5), round(tl, 5)], "verdict": verdict, "environment_nonlinearity": round(env, 2)})
     return out
 
 
